@@ -12,6 +12,7 @@ THEOREMS = [
             "Lou.ModelEngine.fwdRun_nonneg", "Lou.ModelEngine.model_fwd_roundtrip",
             "Lou.ModelEngine.callFwd_eq",
             "Lou.ModelEngine.engineFor_ok",
+            "Lou.ModelEngine.whole_call_fwd_roundtrip",
 ]
 
 CLAIM = dict(
